@@ -10,9 +10,13 @@ from . import envrot, history, walk
 from .frames import BAD, classify_exc, parse_call
 
 
+LAST_EXC = [""]  # class name of the exception the last construct() ended with ("" = none): spec growth (UbxBuild!ConstructClass)
+
+
 def classify_build_exc(ex):
     import pyubx2.exceptions as ube
 
+    LAST_EXC[0] = type(ex).__name__
     if isinstance(ex, (ube.UBXMessageError, ube.UBXTypeError)):
         return "ubx"
     if isinstance(ex, (ube.UBXParseError, ube.UBXStreamError)):
@@ -46,6 +50,7 @@ def construct(m, cls, mid, pbf, kwargs, alias=None):
         pbf = bool(pbf)
     import copy
 
+    LAST_EXC[0] = ""
     try:
         pristine = copy.deepcopy(kwargs)
     except Exception:  # noqa: BLE001 - values that cannot be copied (hostile objects) are used once, as they are
@@ -117,6 +122,7 @@ def obs_c03(case):
     history.run(case.get("hist"))
     msg, out = construct(m, cls, mid, pbf, kwargs, alias=case.get("alias"))
     ev["out"] = out
+    ev["exc"] = LAST_EXC[0]
     if msg is None:
         return ev
     P = msg.payload or b""
@@ -231,6 +237,7 @@ def obs_c15(case):
     history.run(case.get("hist"))
     msg, out = construct(m, cls, mid, pbf, kwargs)
     ev["out"] = out
+    ev["exc"] = LAST_EXC[0]
     if msg is not None:
         P = msg.payload or b""
         ev["P"] = list(P)
